@@ -18,15 +18,26 @@ SPELL = {
     "U": ["NOT_DEFINED_ANYWHERE", "NOT_DEFINED_ANYWHERE + 0", "0 + NOT_DEFINED_ANYWHERE"],
     # self-referential macros (defined in the batch prologue): the surviving name counts as 0
     "R": ["!SELF", "PING == 0", "SELF + 1 == 1", "(SELF || PING) == 0", "!PONG"],
-    "H": ['__has_include("vinc.h")', '__has_include("vinc.h") && 1', 'defined(__has_include) && __has_include("vinc.h")'],
-    "J": ['__has_include("no_such_file_anywhere.h")', '__has_include("no_such_file_anywhere.h") || 0'],
+    # angle forms are searched along -S (parse_file) / -I (gcc); `vsub` is also a macro (see PROLOGUE):
+    # a header name is not subject to macro replacement
+    "H": ['__has_include("vinc.h")', '__has_include("vinc.h") && 1', 'defined(__has_include) && __has_include("vinc.h")',
+          '__has_include(<vinc.h>)', '__has_include(<vsub/vh.h>)', '__has_include("vsub/vh.h")'],
+    "J": ['__has_include("no_such_file_anywhere.h")', '__has_include("no_such_file_anywhere.h") || 0',
+          '__has_include(<vsub/none.h>)', '__has_include(<no_such_file_anywhere.h>)'],
 }
 # classes T F D N V U also draw from vf/condexpr.py: ~2 600 integer expressions over literals in every base,
 # digit separators, suffixes, character literals, ?:, comparisons, M, defined(M) and undefined identifiers,
 # each with its truth vector over the three states of M, validated against gcc -E on every run
 for _c in "TFDNVU":
     SPELL[_c] = SPELL[_c] + condexpr.TABLE[_c]
-PROLOGUE = ["#define SELF SELF", "#define PING PONG", "#define PONG PING"]
+PROLOGUE = ["#define SELF SELF", "#define PING PONG", "#define PONG PING", "#define vsub 3"]
+# lines without any effect, in shapes that stress the line scanner (inside kept AND skipped groups)
+NOISE = ["/* c */", "/** doc **/", "/***/", "/**/", "/* a", "// c", "// #endif", "/* #endif */", "/* #else */ // #elif 1",
+         "#", "# ", "#  /* c */", 'extern const char *vs; /* "/*" */', "/* \" */", "/* ' */",
+         "/* multi\n   line #endif\n   comment **/", "// trailing backslash is not used here",
+         "#define VNOISE \"/*\"", "#define VNOISE2 '\"'", "#define VNOISE3 \"//\" /* c */", "#undef VNOISE"]
+# shapes that only conforming scanners need to get right inside a SKIPPED group (not valid declarations)
+NOISE_SKIPPED_ONLY = ['"/*"', "'\"'", "don't /* c */", '"unterminated', "@ $ ` \\ stray", "/* x */ text /* y */"]
 # (cfg, simulate traces per worker or None)
 CFGS = {"quick": [("CondIncl_quick", None), ("CondIncl_deep", None), ("CondIncl_sim", 1500)],
         "thorough": [("CondIncl_thorough", None), ("CondIncl_deep_thorough", None), ("CondIncl_sim", 40000)]}
@@ -57,6 +68,11 @@ def render_line(code, cid, n, rnd):
         return directive(rnd, code, "M")
     if code in ("else", "endif"):
         return directive(rnd, code)
+    if code == "noise":
+        t = rnd.choice(NOISE)
+        if t == "/* a":
+            t = "/* a\n b */"
+        return t
     return {"text": "int T%d;" % n, "def0": "#define M 0", "def1": "#define M 1",
             "undef": "#undef M", "warn": "#warning W_%d_%d" % (cid, n),
             "err": "#error E_%d_%d" % (cid, n),
@@ -146,7 +162,7 @@ def run_check(ctx):
         for code in rec["p"]:
             seen_codes[code] = seen_codes.get(code, 0) + 1
     want = {"ifdef", "ifndef", "elifdef", "elifndef", "else", "endif", "text", "def0", "def1", "undef", "warn",
-            "err", "inc", "inc2", "push", "pop"} | {"if:" + c for c in SPELL} | {"elif:" + c for c in SPELL}
+            "err", "inc", "inc2", "push", "pop", "noise"} | {"if:" + c for c in SPELL} | {"elif:" + c for c in SPELL}
     missing = sorted(want - set(seen_codes))
     if missing:
         raise MachineryError("vacuous run: line kinds never generated: %s" % missing)
@@ -159,6 +175,8 @@ def run_check(ctx):
     rnd = random.Random(ctx.seed)
     work = ctx.tmp
     open(os.path.join(work, "vinc.h"), "w").write("int INC;\n")
+    os.makedirs(os.path.join(work, "vsub"), exist_ok=True)
+    open(os.path.join(work, "vsub", "vh.h"), "w").write("int VH;\n")
     batches = [progs[i:i + BATCH] for i in range(0, len(progs), BATCH)]
     files = []
     cid = 0
@@ -168,7 +186,9 @@ def run_check(ctx):
         for rec in b:
             cid += 1
             index[cid] = rec
-            lines += render_case(cid, rec, rnd)
+            rendered = render_case(cid, rec, rnd)
+            rec["_text"] = rendered
+            lines += rendered
             if "inc2" in rec["p"]:
                 # (gcc identifies once-only files by content: make each file unique)
                 open(os.path.join(work, "vonce_%d.h" % cid), "w").write("// once-file of case %d\n" % cid + VONCE)
@@ -178,8 +198,8 @@ def run_check(ctx):
 
     def one(fn):
         tr = os.path.join(work, fn + ".trace")
-        r = run.run_tool("parse_file", ["-E", fn], cwd=work, trace=tr, timeout=300)
-        g = subprocess.run(["gcc", "-E", "-P", "-std=gnu2x", fn], cwd=work, stdout=subprocess.PIPE,
+        r = run.run_tool("parse_file", ["-E", "-S", ".", fn], cwd=work, trace=tr, timeout=300)
+        g = subprocess.run(["gcc", "-E", "-P", "-std=gnu2x", "-I.", fn], cwd=work, stdout=subprocess.PIPE,
                            stderr=subprocess.PIPE, text=True)
         return fn, r, g, tr
 
@@ -206,7 +226,7 @@ def run_check(ctx):
             if got != exp:
                 ctx.violation("program %s: expected kept=%s finalM=%s warns=%s, parse_file gave %s" % (
                     " / ".join(rec["p"]), exp[0], exp[1], exp[2], got),
-                    dict(program=render_case(c, rec, random.Random(0)), expected=exp, observed=got))
+                    dict(program=rec.get("_text"), expected=exp, observed=got))
             if len(rec["o"]) < sum(1 for x in rec["p"] if x in ("text", "warn", "err", "inc", "inc2")) or rec["ev"]:
                 nontrivial.add(tuple(rec["p"]))
     ctx.cov["evaluations"] += n_eval
